@@ -15,6 +15,7 @@ Directive grammar (each on its own line, leading whitespace allowed):
   //@ entry                 ... right after the body's opening brace
   //@ tail                  ... immediately before the tail expression (last expression of the body)
   //@ exit                  ... immediately before the body's closing brace (functions returning `()`)
+  //@ tail-after            ... (R32) AFTER the tail expression has been evaluated: `TAIL` becomes `let __tail_r = TAIL; <text> __tail_r`
   //@ loop-end N            ... immediately before the closing brace of the N-th loop's body
   //@ loop-after N          ... immediately after the N-th loop (a statement position)
   //@ forward "CALL" => "EXPR" via FILE :: SELECTOR == "BODY"   rule R20: CALL is a call of the forwarding method SELECTOR whose body is
@@ -1497,7 +1498,7 @@ def extract_item(path, selector, opts, directives, findings_open):
     # drop doc comments inside types (field docs are harmless but `//!` is not)
     if it.kind == "fn":
         text = splice_fn(text, opts, directives, path, selector)
-    elif any(k in directives for k in ("sig", "entry", "tail", "exit", "loop", "loop-end", "loop-after", "before", "after", "ret")):
+    elif any(k in directives for k in ("sig", "entry", "tail", "exit", "tail-after", "loop", "loop-end", "loop-after", "before", "after", "ret")):
         raise ExtractError("splice directives only apply to fn items (%s)" % selector)
     pc.text = prefix + text
     return pc
@@ -1534,6 +1535,13 @@ def splice_fn(text, opts, directives, path, selector):
         if "tail" in directives:
             p = _tail_pos(text, st, bo)
             edits.append((p, p, "\n" + directives["tail"] + "\n"))
+        if "tail-after" in directives:
+            p = _tail_pos(text, st, bo)
+            bc_ = match_close(st, bo)
+            if p >= st[bc_].start:
+                raise ExtractError("anchor lost: %s has no tail expression (tail-after)" % where)
+            edits.append((p, p, "let __tail_r = "))
+            edits.append((st[bc_].start, st[bc_].start, ";\n" + directives["tail-after"] + "\n__tail_r\n"))
         if "exit" in directives:
             # just before the closing brace of the body (for functions returning `()`)
             bc_ = match_close(st, bo)
@@ -1729,7 +1737,7 @@ def generate(spec_path, open_findings=(), auto_helpers=()):
                     nonlocal cur, buf
                     if cur is None: return
                     txt = "\n".join(buf)
-                    if cur[0] in ("sig", "entry", "tail", "exit"):
+                    if cur[0] in ("sig", "entry", "tail", "exit", "tail-after"):
                         directives[cur[0]] = (directives.get(cur[0], "") + "\n" + txt) if cur[0] in directives else txt
                     elif cur[0] == "loop":
                         directives.setdefault("loop", []).append((cur[1], cur[2], txt))
@@ -1809,7 +1817,7 @@ def generate(spec_path, open_findings=(), auto_helpers=()):
                         elif d2.startswith("ret "): directives["ret"] = d2[4:].strip()
                         elif d2.startswith("derive "): directives.setdefault("derive", []).append(d2[7:].strip())
                         elif d2.startswith("attr "): directives.setdefault("attr", []).append(d2[5:].strip())
-                        elif d2 in ("sig", "entry", "tail", "exit"): cur = (d2,)
+                        elif d2 in ("sig", "entry", "tail", "exit", "tail-after"): cur = (d2,)
                         elif d2.startswith("for-next "):
                             ws = d2.split(); kv = dict(w.split("=", 1) for w in ws[2:])
                             directives.setdefault("fornext", []).append((int(ws[1]), kv["into"], kv["next"], kv.get("iter", "__it%s" % ws[1])))
